@@ -31,6 +31,9 @@ func kindReads(p *core.Prog, fn *ssa.Function, isDay func(ssa.Value) bool) map[s
 		if isDay != nil && !isDay(fa.X) {
 			return
 		}
+		if onlyMeasured(fa) {
+			return // len(d.Kind) alone visits no element
+		}
 		for _, k := range dayKinds {
 			if fv.Name() == k {
 				res[k] = append(res[k], fa)
@@ -38,6 +41,34 @@ func kindReads(p *core.Prog, fn *ssa.Function, isDay func(ssa.Value) bool) map[s
 		}
 	})
 	return res
+}
+
+// onlyMeasured: every use of the slice field is a load whose value only
+// reaches len/cap (the elements are not visited).
+func onlyMeasured(fa *ssa.FieldAddr) bool {
+	if fa.Referrers() == nil || len(*fa.Referrers()) == 0 {
+		return false
+	}
+	for _, r := range *fa.Referrers() {
+		ld, ok := r.(*ssa.UnOp)
+		if !ok || ld.Op != token.MUL || ld.Referrers() == nil {
+			return false
+		}
+		for _, u := range *ld.Referrers() {
+			call, ok := u.(*ssa.Call)
+			if !ok {
+				if _, isDbg := u.(*ssa.DebugRef); isDbg {
+					continue
+				}
+				return false
+			}
+			b, ok := call.Call.Value.(*ssa.Builtin)
+			if !ok || (b.Name() != "len" && b.Name() != "cap") {
+				return false
+			}
+		}
+	}
+	return true
 }
 
 func instrReaches(a, b ssa.Instruction) bool {
@@ -147,6 +178,44 @@ func RuleDProcessOrder(c *core.Ctx) {
 			c.Ob(rule, key, calls[0].Pos(), core.FuncName(proc), core.Discharged, name+" is invoked "+map[string]string{"DayStart": "before", "DayEnd": "after"}[name]+" all per-kind loops")
 		} else {
 			c.Ob(rule, key, calls[0].Pos(), core.FuncName(proc), core.Violated, bad)
+		}
+	}
+	// every kind is visited on every day: the loop over a kind is control-dependent
+	// only on error tests and on the nil test of a callback of the processor
+	procT := p.NamedType(pkgJournal, "Processor")
+	for _, k := range dayKinds {
+		for _, rd := range reads[k] {
+			key := fmt.Sprintf("%s:%s are visited on every day", core.FuncName(proc), k)
+			bad := ""
+			for _, b := range proc.Blocks {
+				iff, ok := b.Instrs[len(b.Instrs)-1].(*ssa.If)
+				if !ok {
+					continue
+				}
+				if ctl, _ := core.Controls(b, rd.Block()); !ctl {
+					continue
+				}
+				if isErrTest(iff.Cond) || core.IsLoopExitTest(b, rd.Block()) {
+					continue
+				}
+				if bo, ok := iff.Cond.(*ssa.BinOp); ok && (core.IsNilConst(bo.X) || core.IsNilConst(bo.Y)) {
+					v := bo.X
+					if core.IsNilConst(v) {
+						v = bo.Y
+					}
+					if ld, ok := v.(*ssa.UnOp); ok {
+						if fa, ok := ld.X.(*ssa.FieldAddr); ok && procT != nil && core.FieldIs(core.FieldOf(fa), procT, core.FieldOf(fa).Name()) {
+							continue
+						}
+					}
+				}
+				bad = describeValue(p, iff.Cond)
+			}
+			if bad == "" {
+				c.Ob(rule, key, rd.Pos(), core.FuncName(proc), core.Discharged, "the loop depends only on error tests and on its callback being set")
+			} else {
+				c.Ob(rule, key, rd.Pos(), core.FuncName(proc), core.Violated, "whether the "+k+" of a day are dispatched depends on "+bad+": a day can be skipped with directives on it (e.g. a close that is alone on its day never reaches the checker)")
+			}
 		}
 	}
 	c.Floor(rule, 12)
